@@ -41,7 +41,7 @@ func (cc *checkCtx) runOverlayTests(tests []overlayTest) *extraResult {
 			repl[k] = v
 		}
 		os.WriteFile(ovFile, mustJSON(map[string]any{"Replace": repl}), 0o644)
-		cmd := exec.Command("go", "test", "-overlay", ovFile, "-vet=off", "-count=1", "-timeout", "600s", "-run", ot.Run, "-v", ".")
+		cmd := exec.Command("go", "test", "-overlay", ovFile, "-vet=off", "-count=1", "-timeout", "3600s", "-run", ot.Run, "-v", ".")
 		cmd.Dir = pkgDir
 		cmd.Env = append(append(os.Environ(), "GOFLAGS=-mod=mod", "GOPROXY=off", "GOSUMDB=off", "GOTOOLCHAIN=local",
 			fmt.Sprintf("VERIF_SEED=%d", cc.seed), "VERIF_TIER="+cc.tier), ot.Env...)
